@@ -444,6 +444,153 @@ class Fn:
         return f'Definition {fname}{args} :=\n{body}.\n'
 
 
+class LoopRound:
+    """Control skeleton of a worker thread's loop `while (guard) { body }`: one round as a function
+         round (ex : bool) (cs : list bool) : round_outcome
+    where ex is the value every read of the exit flag yields during the round (the flag only ever goes from false to true) and
+    cs are the values of the other conditions, in order of appearance (their source text is emitted as <name>_conds).
+    RCont = the round ends at `continue` or at the end of the body (the guard is evaluated again), RBrk = the loop is left
+    (`break`, `return`, guard false): the thread function returns.  Inner loops must be `do {..} while (0)` or `for` loops with a
+    literal bound and no return inside; every call made in the round must be in the job's list of calls known to return
+    (time-outs included) - anything else fails the translation."""
+
+    def __init__(self, tr, node, flag, src_path, allowed):
+        self.tr, self.node, self.flag, self.allowed = tr, node, flag, set(allowed)
+        self.src = open(src_path, 'rb').read()
+        self.conds, self.calls = [], []
+
+    def strip(self, n):
+        while n.get('kind') in ('ImplicitCastExpr', 'ParenExpr', 'ExprWithCleanups', 'MaterializeTemporaryExpr', 'CXXBindTemporaryExpr', 'ConstantExpr'):
+            n = n['inner'][0]
+        return n
+
+    def is_flag(self, n):
+        n = self.strip(n)
+        if n.get('kind') == 'CXXMemberCallExpr':       # std::atomic<bool>::operator bool / load()
+            callee = self.strip(n['inner'][0])
+            if callee.get('kind') == 'MemberExpr' and callee.get('name') in ('operator bool', 'load', 'operator std::atomic<bool>::__integral_type') and len(n['inner']) == 1:
+                return self.is_flag(callee['inner'][0])
+            return False
+        if n.get('kind') == 'MemberExpr' and n.get('name') == self.flag:
+            b = self.strip(n['inner'][0])
+            return b.get('kind') == 'CXXThisExpr'
+        return False
+
+    def text_of(self, n):
+        r = n.get('range', {})
+        b = r.get('begin', {}); e = r.get('end', {})
+        b = b.get('expansionLoc', b); e = e.get('expansionLoc', e)
+        if 'offset' not in b or 'offset' not in e:
+            return '?'
+        t = self.src[b['offset']: e['offset'] + e.get('tokLen', 1)].decode('utf8', 'replace')
+        return ' '.join(t.split())
+
+    def cond(self, n):
+        n0 = n
+        n = self.strip(n)
+        k = n.get('kind')
+        if self.is_flag(n):
+            return 'ex'
+        if k == 'UnaryOperator' and n.get('opcode') == '!':
+            return f'(negb {self.cond(n["inner"][0])})'
+        if k == 'BinaryOperator' and n.get('opcode') in ('&&', '||'):
+            return f'({self.cond(n["inner"][0])} {n["opcode"]} {self.cond(n["inner"][1])})'
+        if k == 'IntegerLiteral':
+            return 'false' if n['value'] == '0' else 'true'
+        if k == 'CXXBoolLiteralExpr':
+            return 'true' if n['value'] else 'false'
+        self.note_calls(n)
+        self.conds.append(self.text_of(n0))
+        return f'(nth {len(self.conds) - 1} cs false)'
+
+    def note_calls(self, n):
+        k = n.get('kind')
+        if k in ('CallExpr', 'CXXMemberCallExpr', 'CXXOperatorCallExpr'):
+            c = self.strip(n['inner'][0])
+            name = c.get('name') if c.get('kind') == 'MemberExpr' else (c.get('referencedDecl', {}).get('name') if c.get('kind') == 'DeclRefExpr' else None)
+            if name is None and k == 'CXXOperatorCallExpr':
+                name = 'operator'
+            if name is None:
+                raise Unsupported('call with a computed callee inside a worker loop')
+            if name.startswith('operator'):
+                # calling a std::function member (a callback): named after the member
+                for a in n['inner'][1:2]:
+                    a = self.strip(a)
+                    if a.get('kind') == 'MemberExpr':
+                        name = a['name'] + '()'
+            if name not in self.allowed and not name.startswith('operator'):
+                raise Unsupported(f'call to {name} inside the loop is not in the list of calls known to return')
+            if name not in self.calls:
+                self.calls.append(name)
+        if k in ('LambdaExpr',):
+            return
+        for c in n.get('inner', []):
+            if isinstance(c, dict):
+                self.note_calls(c)
+
+    def has(self, n, kinds):
+        if n.get('kind') in kinds:
+            return True
+        return any(self.has(c, kinds) for c in n.get('inner', []) if isinstance(c, dict))
+
+    def seq(self, lst):
+        if not lst:
+            return 'RCont'
+        s, rest = lst[0], lst[1:]
+        k = s.get('kind')
+        if k == 'CompoundStmt':
+            return self.seq(s.get('inner', []) + rest)
+        if k == 'ContinueStmt':
+            return 'RCont'
+        if k in ('BreakStmt', 'ReturnStmt'):
+            return 'RBrk'
+        if k == 'IfStmt':
+            inner = s['inner']
+            c = self.cond(inner[0])
+            a = self.seq([inner[1]] + rest)
+            b = self.seq(([inner[2]] if len(inner) > 2 else []) + rest)
+            return f'(if {c} then {a} else {b})'
+        if k == 'DoStmt':
+            body, c = s['inner'][0], self.strip(s['inner'][1])
+            if not (c.get('kind') == 'IntegerLiteral' and c.get('value') == '0') or self.has(body, ('BreakStmt', 'ContinueStmt', 'ReturnStmt', 'GotoStmt')):
+                raise Unsupported('do-loop other than `do {..} while (0)` inside a worker loop')
+            return self.seq([body] + rest)
+        if k == 'ForStmt':
+            parts = s['inner']
+            c = self.strip(parts[2]) if len(parts) > 2 and parts[2] else {}
+            def is_const(n):
+                n = self.strip(n)
+                if n.get('kind') in ('IntegerLiteral', 'UnaryExprOrTypeTraitExpr'):
+                    return True
+                if n.get('kind') == 'BinaryOperator' and n.get('opcode') in ('/', '*', '+', '-'):
+                    return all(is_const(x) for x in n['inner'])
+                return False
+            ok = c.get('kind') == 'BinaryOperator' and c.get('opcode') in ('<', '<=', '!=') and is_const(c['inner'][1])
+            if not ok or self.has(s, ('ReturnStmt', 'GotoStmt', 'WhileStmt')):
+                raise Unsupported('inner for-loop without a constant bound (or with return / goto / while inside)')
+            self.note_calls(s)
+            return self.seq(rest)
+        if k in ('WhileStmt', 'SwitchStmt', 'GotoStmt', 'CXXTryStmt', 'CXXForRangeStmt', 'LabelStmt'):
+            raise Unsupported(f'{k} inside a worker loop')
+        self.note_calls(s)
+        return self.seq(rest)
+
+    def translate(self, fname):
+        bodies = [c for c in self.node.get('inner', []) if c['kind'] == 'CompoundStmt']
+        if not bodies:
+            raise Unsupported('no body')
+        whiles = [c for c in bodies[0].get('inner', []) if c['kind'] == 'WhileStmt']
+        if len(whiles) != 1 or self.has({'inner': [c for c in bodies[0]['inner'] if c['kind'] != 'WhileStmt']}, ('WhileStmt', 'DoStmt', 'ForStmt', 'GotoStmt')):
+            raise Unsupported('thread function is not `prologue; while (guard) { body } epilogue`')
+        w = whiles[0]
+        g = self.cond(w['inner'][0])
+        body = self.seq([w['inner'][1]])
+        q = lambda t: '"' + t.replace('"', '""') + '"%string'
+        return (f'Definition {fname}_conds : list string := [{"; ".join(q(c) for c in self.conds)}].\n'
+                f'Definition {fname}_calls : list string := [{"; ".join(q(c) for c in self.calls)}].\n'
+                f'Definition {fname}_round (ex : bool) (cs : list bool) : round_outcome :=\n  if {g} then {body} else RBrk.\n')
+
+
 class Translator:
     def __init__(self, repo):
         self.repo = repo
@@ -533,8 +680,10 @@ class Translator:
 
 
 PRELUDE = '''(* GENERATED by tools/kt.py from the current /repo sources -- do not edit. *)
-From Coq Require Import ZArith Bool.
+From Coq Require Import ZArith Bool String List.
+Import ListNotations.
 Local Open Scope Z_scope.
+Inductive round_outcome := RCont | RBrk.
 Definition wrapu (n x : Z) : Z := x mod (2 ^ n).
 Definition wraps (n x : Z) : Z := (x + 2 ^ (n - 1)) mod (2 ^ n) - 2 ^ (n - 1).
 '''
@@ -603,6 +752,33 @@ def main():
                 f.ret_index = True
                 f.ret_table = ret_tables[name]
             parts.append(f.translate(pure=True))
+
+    def do_loop(cls, method, inc, flag, allowed, src=None):
+        # the definition is looked up by its qualified name in a TU that includes the whole driver (the input headers are not
+        # self-contained; members of class templates are defined out of class)
+        m = None
+        for doc in tr.ast(f'{cls}::{method}', ['rs_driver/api/lidar_driver.hpp']):
+            if doc['kind'] == 'CXXMethodDecl' and doc.get('name') == method and any(x['kind'] == 'CompoundStmt' for x in doc.get('inner', [])):
+                m = doc
+        if m is None:
+            raise Unsupported(f'{cls}::{method} not found')
+        lr = LoopRound(tr, m, flag, os.path.join(repo, 'src', src or inc), allowed)
+        parts.append(f'(* ---- one round of the loop of {cls}::{method} (exit flag {flag}) ---- *)\n')
+        parts.append(lr.translate(f'{cls}_{coq_ident(method)}'))
+
+    I = 'rs_driver/driver/input/'
+    jobs += [
+        ('LidarDriverImpl_processPacket', lambda: do_loop('LidarDriverImpl', 'processPacket', 'rs_driver/driver/lidar_driver_impl.hpp', 'to_exit_handle_',
+                                                          ['popWait', 'get', 'internalProcessPacket'])),
+        ('InputSock_recvPacket', lambda: do_loop('InputSock', 'recvPacket', I + 'unix/input_sock_select.hpp', 'to_exit_recv_',
+                                                 ['select', 'cb_excep_()', 'Error', 'perror', 'cb_get_pkt_()', 'recvfrom', 'buf', 'bufSize', 'setData', 'pushPacket', '__errno_location', 'memset', 'get'])),
+        ('InputPcap_recvPacket', lambda: do_loop('InputPcap', 'recvPacket', I + 'input_pcap.hpp', 'to_exit_recv_',
+                                                 ['pcap_open_offline', 'c_str', 'cb_excep_()', 'Error', 'pcap_next_ex', 'pcap_close', 'pcap_offline_filter', 'cb_get_pkt_()', 'memcpy', 'data', 'setData',
+                                                  'pushPacket', 'sleep_for', 'microseconds', 'get'])),
+        ('InputPcapJumbo_recvPacket', lambda: do_loop('InputPcapJumbo', 'recvPacket', I + 'input_pcap_jumbo.hpp', 'to_exit_recv_',
+                                                      ['pcap_open_offline', 'c_str', 'cb_excep_()', 'Error', 'pcap_next_ex', 'pcap_close', 'pcap_offline_filter', 'cb_get_pkt_()', 'memcpy', 'data', 'buf', 'setData',
+                                                       'pushPacket', 'sleep_for', 'microseconds', 'get', 'new_fragment', 'dataLen', 'ntohs', '__bswap_16'])),
+    ]
 
     failed = []
     for name, job in jobs:
